@@ -184,13 +184,13 @@ func baseContentType(ct string) string {
 // bind runs gin's own binding (the library, not the handlers) on the body to decide whether the
 // body can be bound to the endpoint's documented request type under the declared content type.
 // It is used for labelling only.
-func bind(method, ct string, body []byte, jsonOnly bool, obj any) (ok bool) {
+func bind(method, target, ct string, body []byte, jsonOnly bool, obj any) (ok bool) {
 	defer func() {
 		if recover() != nil {
 			ok = false
 		}
 	}()
-	req := httptest.NewRequest(method, "/", bytes.NewReader(body))
+	req := httptest.NewRequest(method, target, bytes.NewReader(body)) // form bindings read the query string too
 	if ct != "" {
 		req.Header.Set("Content-Type", ct)
 	}
@@ -233,7 +233,7 @@ func (s *store) bodyClass(q *Req, kind string) (string, bool) {
 	switch kind {
 	case "hashlist":
 		var l []string
-		if !bind(q.Method, q.CT, body, true, &l) {
+		if !bind(q.Method, q.target(), q.CT, body, true, &l) {
 			return "<unbindable>", false
 		}
 		if len(l) == 0 {
@@ -243,13 +243,16 @@ func (s *store) bodyClass(q *Req, kind string) (string, bool) {
 		normal := true
 		for i, h := range l {
 			c, n := s.hashClass(h)
+			if s.coarseElems && notStored[c] {
+				c = "<not-stored>"
+			}
 			cl[i] = strings.Trim(c, "<>")
 			normal = normal && n
 		}
 		return "list[" + distinctSorted(cl) + many(len(l)) + "]", normal && len(l) <= 8
 	case "merklelist":
 		var l []domains.MerkleRootConfirmationRequestItem
-		if !bind(q.Method, q.CT, body, true, &l) {
+		if !bind(q.Method, q.target(), q.CT, body, true, &l) {
 			return "<unbindable>", false
 		}
 		if len(l) == 0 {
@@ -273,18 +276,11 @@ func (s *store) bodyClass(q *Req, kind string) (string, bool) {
 		return "items[" + distinctSorted(cl) + many(len(l)) + "]", normal && len(l) <= 8
 	case "webhook":
 		var w webhook.Request
-		if !bind(q.Method, q.CT, body, false, &w) {
+		if !bind(q.Method, q.target(), q.CT, body, false, &w) {
 			return "<unbindable>", false
 		}
 		uc, _ := s.urlClass(w.URL, true)
-		ac := "custom-auth"
-		switch {
-		case strings.ToLower(w.RequiredAuth.Type) == "bearer":
-			ac = "bearer-auth"
-		case w.RequiredAuth.Type == "" && w.RequiredAuth.Header == "" && w.RequiredAuth.Token == "":
-			ac = "no-auth"
-		}
-		return "webhook{url=" + uc + "," + ac + "}", uc == "<unregistered>" && isJSONCT(q.CT)
+		return "webhook{url=" + uc + "}", uc == "<unregistered>" && isJSONCT(q.CT)
 	}
 	return "<unexpected>", false
 }
